@@ -76,6 +76,16 @@ func buildC06(c *c06Case) *liveCase {
 	sc := liveScenarios(c.Type)[c.Scenario]
 	lc := newLiveCase(sc, c.FrontEnd, false)
 	host := hostVariant(c.Hostname)
+	hostReply := ""
+	switch c.Hostname {
+	case "error":
+		// The name query itself fails on the device.
+		host = "router"
+		hostReply = map[string]string{"linux": "hostname: Name or service not known", "asa": "ERROR: % Incomplete command"}[c.Type]
+	case "empty":
+		host = "router"
+		hostReply = "<empty>"
+	}
 	marker := "This device is managed by NetSPoC"
 	if strings.HasPrefix(c.Marker, "not-configured") {
 		lc.CheckBanner = ""
@@ -84,6 +94,7 @@ func buildC06(c *c06Case) *liveCase {
 	switch c.Type {
 	case "asa", "ios":
 		lc.Cli.Hostname = host
+		lc.Cli.HostReply = hostReply
 		if !markerShown {
 			lc.Cli.PostBanner = "Authorized access only"
 		}
@@ -93,6 +104,7 @@ func buildC06(c *c06Case) *liveCase {
 		}
 	case "linux":
 		lc.Cli.Hostname = host
+		lc.Cli.HostReply = hostReply
 		if !markerShown {
 			lc.Cli.Issue = "Debian GNU/Linux 11 \\n \\l\n"
 		}
@@ -156,6 +168,10 @@ func enumerateC06() []*c06Case {
 				has := []string{""}
 				if typ == "panos" {
 					has = []string{"", "active", "passive", "active-primary", "active-secondary", "passive+active", "passive+passive"}
+				}
+				if typ == "linux" || typ == "asa" {
+					// The device answers the name query itself.
+					hosts = append(hosts, "error", "empty")
 				}
 				if typ == "nsx" {
 					// No hostname, marker or HA interlock exists for NSX; the
